@@ -131,6 +131,21 @@ func (s *Session) RemoveEntity(e *Entity) {
 	delete(s.entities, e.ID)
 }
 
+// WithEntity calls f with the entity that has the given id and reports whether
+// there is one. The entity cannot be removed from the session while f runs, so
+// what f attaches to it is seen by the removal that follows.
+func (s *Session) WithEntity(id uint32, f func(*Entity)) bool {
+	s.entityMutex.RLock()
+	defer s.entityMutex.RUnlock()
+
+	e, ok := s.entities[id]
+	if !ok {
+		return false
+	}
+	f(e)
+	return true
+}
+
 func (s *Session) EntityByID(id uint32) (*Entity, bool) {
 	s.entityMutex.RLock()
 	defer s.entityMutex.RUnlock()
